@@ -114,6 +114,7 @@ class World:
         self.calls_in_op = {}
         self.faults = dict(faults or {})  # (op_index, kind, name, nth) -> exception class name
         self.armed = {}  # (kind, name) -> exception class name: raises on every call while armed
+        self.armed_kinds = {}  # kind -> exception class name
         self.fired = []  # fault addresses that actually fired
         self.backend_script = dict(backend_script or {})  # global backend call index -> fault kind
         self.backend_calls = 0
@@ -198,6 +199,8 @@ class World:
         exc = self.faults.get((self.op_index, kind, name, n))
         if exc is None:
             exc = self.armed.get(key)
+        if exc is None:
+            exc = self.armed_kinds.get(kind)  # every callable of a kind (e.g. all effects) while armed
         if exc is not None:
             addr = (self.op_index, kind, name, n)
             self.fired.append(addr)
